@@ -277,7 +277,7 @@ def _verify_unit(unit_path, repo, tier, twin, probe_only):
             probe_lines = [k + 1 for k, l in enumerate(tlines) if 'VACUITY-PROBE' in l]
 
             def twin_run(rl):
-                tr_ = run_verus(tpath, rl, multiple_errors=64, extra=extra)
+                tr_ = run_verus(tpath, rl, multiple_errors=64, extra=extra, timeout=(600 if rl > rlimit else 900))
                 failed_, rl_hit = set(), False
                 for d in tr_['diags']:
                     if d['level'] == 'error' and 'assertion failed' in d['message']:
@@ -291,9 +291,12 @@ def _verify_unit(unit_path, repo, tier, twin, probe_only):
             # quick tier: a probe the solver could neither prove nor refute within the unit's rlimit is reported as
             # inconclusive_rlimit (the context was NOT found contradictory within the budget); thorough tier: retry at 6x
             if rl_hit and tier != 'quick' and any(k not in failed_lines for k in probe_lines):
-                tr2, failed2, rl_hit = twin_run(rlimit * 6)
+                tr2, failed2, rl_hit2 = twin_run(rlimit * 6)
                 failed_lines |= failed2
                 tr = tr2
+                # a probe that no run refuted stays INCONCLUSIVE as long as one of the runs ran out of resources or did not
+                # finish (the retry may be cut short by the time limit and then reports nothing at all)
+                rl_hit = True
             vac = [tlines[k - 1].strip() + ' @%d' % k for k in probe_lines if k not in failed_lines]
             inconclusive = []
             if rl_hit and vac:
